@@ -281,6 +281,48 @@ def run(rep, tier):
                     rep.bad("C08.R5", fn, loc_of(decls[0][2]) if decls else fn.loc, "wake-count", "sliding_semaphore::signal does not offer a wake-up to every queued waiter "
                             "(loop counter initialised with %s): a waiter whose upper limit is now within the window stays suspended"
                             % [T(strip(e["init"])) for _, _, e in decls])
+            if field == "this->value_":
+                # evaluated: while fewer than `count` waiters were offered a wake-up and permits are still available
+                # (value_ > 0), no exit test of the loop fires (only notify_one's "nobody is waiting" may end it early) -
+                # whatever the woken waiters did to value_ in the meantime (the lock is released around every notify)
+                ints = [p_["name"] for p_ in fn.params if re.search(r"int|size_t|long|ptrdiff|short|unsigned", str(p_.get("type", "")))]
+                steps = set()
+                for b_ in loop:
+                    for e_ in fn.blocks[b_].events:
+                        if e_.get("k") == "write" and e_.get("op") in ("++", "+=") and re.match(r"^\w+$", P(e_["lhs"])):
+                            steps.add(P(e_["lhs"]))
+                if len(ints) == 1 and len(steps) == 1:
+                    cnt, ctr = ints[0], sorted(steps)[0]
+                    early = None
+                    nsamp = 0
+                    for c_ in range(1, 6):
+                        for i_ in range(0, c_):
+                            for v_ in (1, 2, 3, 5, 9):
+                                env = {cnt: c_, ctr: i_, field: v_}
+                                for b_ in loop:
+                                    blk = fn.blocks[b_]
+                                    if blk.cond is None:
+                                        continue
+                                    outs = [lab for lab, t, _ in blk.succ if t not in loop]
+                                    if not outs:
+                                        continue
+                                    try:
+                                        val = bool(eval_tree(blk.cond, env))
+                                    except Unknown:
+                                        continue
+                                    nsamp += 1
+                                    if ("true" if val else "false") in outs and early is None:
+                                        early = (dict(env), T(blk.cond), blk)
+                    if early:
+                        rep.bad("C08.R5", fn, loc_of(nev), "wake-loop-stops-early", "the wake loop of %s stops although fewer than `%s` waiters were "
+                                "offered a wake-up and permits are available: %s is false for %s (woken waiters change %s while the loop runs; "
+                                "a blocked acquirer is never notified, its permit stays in the semaphore)" % (fn.qname, cnt, early[1], early[0], field))
+                    elif nsamp:
+                        rep.ok("C08.R5", fn, "the wake loop goes on while fewer than `%s` wake-ups were offered and permits remain (%d sample evaluations)" % (cnt, nsamp))
+                    else:
+                        raise AnalysisBroken("%s: loop exit tests not evaluable" % fn.qname)
+                else:
+                    raise AnalysisBroken("%s: wake loop counter / count parameter not identified (%s, %s)" % (fn.qname, ints, sorted(steps)))
             if bad_exit:
                 rep.bad("C08.R5", fn, loc_of(nev), "wake-loop-exit", "wake loop can be left on a condition other than "
                         "no-waiters / no-permits / count reached: %s" % bad_exit)
